@@ -22,20 +22,20 @@ open SpyneModel.Conc SpyneModel.Generated
 
 /-- FULL STATEMENT.  Whatever the requests, however many, under every interleaving: a caller that
     receives a response receives exactly the response the same request gets when it is processed
-    alone. -/
+    alone.  (No injected build failure here; with failures see `wsdl_once_and_whole`.) -/
 theorem concurrent_requests_do_not_interfere (reqs : List Req) (hf : ∀ q ∈ reqs, q.Faithful facts12)
     (sched : List Nat) (i : Nat) (hi : i < reqs.length) (r : Resp)
-    (hr : (sysRun facts12 (sysInit reqs) sched).response i = some r) :
+    (hr : (sysRun facts12 allOk (sysInit reqs) sched).response i = some r) :
     alone facts12 reqs[i] = some r :=
   sys_main facts12 (by decide) reqs hf sched i hi r hr
 
 /-- … and `build_interface_document` runs at most once -/
 theorem wsdl_built_at_most_once (reqs : List Req) (sched : List Nat) :
-    (sysRun facts12 (sysInit reqs) sched).w.builds ≤ 1 :=
+    (sysRun facts12 allOk (sysInit reqs) sched).w.builds ≤ 1 :=
   sys_builds facts12 (by decide) reqs sched
 
 /-- what "processed alone" yields: the sequential document … -/
-theorem alone_wsdl_is_the_sequential_document : alone facts12 .wsdl = some (.doc (some .whole)) :=
+theorem alone_wsdl_is_the_sequential_document : alone facts12 .wsdl = some (.doc (.doc (some .whole))) :=
   alone_wsdl facts12 (by decide)
 
 /-- … and for an RPC request, the values a sequential run computes -/
@@ -50,123 +50,173 @@ private def demoReqs : List Req :=
   [ .wsdl, .wsdl, .rpc 7 true [.validate, .readErr],
     .rpc 8 false [.validate, .probe ⟨.attr, 1, true⟩, .publish ⟨.attr, 1, true⟩, .probe ⟨.sort, 2, false⟩] ]
 private def demoSched : List Nat :=
-  [0, 1, 0, 1, 2, 3, 0, 1, 3, 2, 3, 3] ++ List.replicate 18 1 ++ List.replicate 18 0
+  [0, 1, 0, 1, 2, 3, 0, 1, 3, 2, 3, 3] ++ List.replicate 23 1 ++ List.replicate 23 0
 example : ∀ q ∈ demoReqs, q.Faithful facts12 := by decide +kernel
-example : (sysRun facts12 (sysInit demoReqs) demoSched).response 1 = some (.doc (some .whole)) := by decide +kernel
-example : (sysRun facts12 (sysInit demoReqs) demoSched).response 0 = some (.doc (some .whole)) := by decide +kernel
-example : (sysRun facts12 (sysInit demoReqs) demoSched).response 2 = some (.body [.err (some 7)]) := by decide +kernel
-example : (sysRun facts12 (sysInit demoReqs) demoSched).w.builds = 1 := by decide +kernel
+example : (sysRun facts12 allOk (sysInit demoReqs) demoSched).response 1 = some (.doc (.doc (some .whole))) := by decide +kernel
+example : (sysRun facts12 allOk (sysInit demoReqs) demoSched).response 0 = some (.doc (.doc (some .whole))) := by decide +kernel
+example : (sysRun facts12 allOk (sysInit demoReqs) demoSched).response 2 = some (.body [.err (some 7)]) := by decide +kernel
+example : (sysRun facts12 allOk (sysInit demoReqs) demoSched).w.builds = 1 := by decide +kernel
 
-/-! ### the lazy WSDL handler (skeleton taken from the ast of /repo) -/
+/-! ### the lazy WSDL handler (skeleton incl. its try/except/finally structure taken from the ast of /repo)
 
-/-- for every schedule and any number of racing requesters: one build at most, every requester
-    that is answered is handed the complete sequential document, and the cached and the published
-    document are never anything else -/
-theorem wsdl_once_and_whole (sched : List Nat) :
-    let s := run facts12.builderResets facts12.wsdlSkeleton init sched
-    s.builds ≤ 1 ∧ (∀ i d, s.responded i = some d → d = some .whole) ∧
-    (s.cache = none ∨ s.cache = some .whole) ∧ (s.pub = none ∨ s.pub = some .whole) := by
+  `O : Nat → Fail` is an adversary that decides for every execution of `build_interface_document`
+  whether it succeeds, raises before touching anything, or raises after the portType / service
+  elements exist; every theorem of this section holds for every schedule AND every `O`. -/
+
+private theorem resets_ok (O : Nat → Fail) : (facts12.cfg O).resets = true :=
+  show facts12.builderResets = true by decide
+
+private theorem reach (O : Nat → Fail) (sched : List Nat) :
+    GInv (facts12.cfg O) (run (facts12.cfg O) facts12.wsdlSkeleton init sched) := by
   have hsk : facts12.wsdlSkeleton = expectedSkeleton := by decide
+  rw [hsk]
+  exact ginv_reachable (facts12.cfg O) (resets_ok O) sched
+
+/-- for every schedule, any number of racing requesters and any build outcomes: at most one build
+    ever succeeds; every requester that is answered is handed the complete sequential document or
+    (only if its own build raised) the 500 of the `except` clause; the cached and the published
+    document are never anything but the complete one; a thread that has answered does not hold the
+    lock -/
+theorem wsdl_once_and_whole (O : Nat → Fail) (sched : List Nat) :
+    let s := run (facts12.cfg O) facts12.wsdlSkeleton init sched
+    s.succ ≤ 1 ∧ (∀ i a, s.responded i = some a → a = .doc (some .whole) ∨ a = .error) ∧
+    (s.cache = none ∨ s.cache = some .whole) ∧ (s.pub = none ∨ s.pub = some .whole) ∧
+    (∀ i, s.responded i ≠ none → s.lock ≠ some i) := by
   intro s
-  have h : GInv s := by
-    show GInv (run _ facts12.wsdlSkeleton init sched)
-    rw [hsk]; exact ginv_reachable _ sched
-  refine ⟨h.b1, fun i d hd => ?_, h.cache_ok, h.pub_ok⟩
-  rcases (h.thr i).resp_ok with h0 | h0
-  · simp [State.responded, h0] at hd
-  · simp [State.responded, h0] at hd; exact hd.symm
+  have h : GInv (facts12.cfg O) s := reach O sched
+  refine ⟨h.b1, fun i a ha => ?_, h.cache_ok, h.pub_ok, fun i hi => finished_not_holding _ s h i hi⟩
+  rcases (h.thr i).resp_ok with h0 | h0 | h0 <;> simp [State.responded, h0] at ha
+  · exact Or.inl ha.symm
+  · exact Or.inr ha.symm
+
+/-- when no build fails, nobody is answered 500 and the build runs at most once -/
+theorem wsdl_without_failures (sched : List Nat) :
+    let s := run (facts12.cfg allOk) facts12.wsdlSkeleton init sched
+    s.builds ≤ 1 ∧ ∀ i a, s.responded i = some a → a = .doc (some .whole) := by
+  intro s
+  have h : GInv (facts12.cfg allOk) s := reach allOk sched
+  refine ⟨builds_le_one _ s h (no_failure_allOk _), fun i a ha => ?_⟩
+  rcases (h.thr i).resp_ok with h0 | h0 | h0
+  · simp [State.responded, h0] at ha
+  · simp [State.responded, h0] at ha; exact ha.symm
+  · exact absurd ((h.thr i).e1 (Or.inr (Or.inr h0))) (no_failure_allOk _)
+
+/-- after a failed build the next requester builds: whenever the lock is free, either no build has
+    succeeded yet (and the cache is still empty) or the cache holds the document -/
+theorem wsdl_failed_build_is_retried (O : Nat → Fail) (sched : List Nat) :
+    let s := run (facts12.cfg O) facts12.wsdlSkeleton init sched
+    s.lock = none → (s.succ = 0 ∧ s.cache = none) ∨ s.cache = some .whole := by
+  intro s hl
+  have h : GInv (facts12.cfg O) s := reach O sched
+  rcases h.free hl with h0 | h0
+  · exact Or.inl ⟨h0, (h.b0 h0).2⟩
+  · exact Or.inr h0
 
 /-- once `_wsdl` holds the document it holds it for good (it never goes back to `None`) -/
-theorem wsdl_cache_never_reverts (sched more : List Nat) (d : Doc)
-    (h : (run facts12.builderResets facts12.wsdlSkeleton init sched).cache = some d) :
-    (run facts12.builderResets facts12.wsdlSkeleton init (sched ++ more)).cache = some .whole ∧ d = .whole := by
+theorem wsdl_cache_never_reverts (O : Nat → Fail) (sched more : List Nat) (d : Doc)
+    (h : (run (facts12.cfg O) facts12.wsdlSkeleton init sched).cache = some d) :
+    (run (facts12.cfg O) facts12.wsdlSkeleton init (sched ++ more)).cache = some .whole ∧ d = .whole := by
+  have hinv := reach O sched
   have hsk : facts12.wsdlSkeleton = expectedSkeleton := by decide
-  rw [hsk] at h ⊢
-  have hinv := ginv_reachable facts12.builderResets sched
+  rw [hsk] at h hinv ⊢
   have hd : d = .whole := by
     rcases hinv.cache_ok with h0 | h0
     · rw [h0] at h; cases h
     · rw [h0] at h; cases h; rfl
   subst hd
   rw [run_append]
-  exact ⟨cache_stays_run _ more _ hinv h, rfl⟩
+  exact ⟨cache_stays_run _ (resets_ok O) more _ hinv h, rfl⟩
 
-/-- the build region is entered by one thread at a time -/
-theorem wsdl_mutual_exclusion (sched : List Nat) (i j : Nat) :
-    let s := run facts12.builderResets facts12.wsdlSkeleton init sched
-    8 ≤ (s.loc i).pc ∧ (s.loc i).pc ≤ 16 → 8 ≤ (s.loc j).pc ∧ (s.loc j).pc ≤ 16 → i = j := by
-  have hsk : facts12.wsdlSkeleton = expectedSkeleton := by decide
+/-- the locked region (from `acquire` to the `release` of either exit) is entered by one thread at a time -/
+theorem wsdl_mutual_exclusion (O : Nat → Fail) (sched : List Nat) (i j : Nat) :
+    let s := run (facts12.cfg O) facts12.wsdlSkeleton init sched
+    held (s.loc i).pc → held (s.loc j).pc → i = j := by
   intro s hi hj
-  have h : GInv s := by
-    show GInv (run _ facts12.wsdlSkeleton init sched)
-    rw [hsk]; exact ginv_reachable _ sched
-  exact mutex_of_ginv s h i j hi hj
+  exact mutex_of_ginv _ s (reach O sched) i j hi hj
 
-/-- no deadlock: while some requester is unanswered, some thread can move -/
-theorem wsdl_no_deadlock (sched : List Nat) (i : Nat) :
-    let s := run facts12.builderResets facts12.wsdlSkeleton init sched
+/-- no deadlock, whatever fails: while some requester is unanswered, some thread can move -/
+theorem wsdl_no_deadlock (O : Nat → Fail) (sched : List Nat) (i : Nat) :
+    let s := run (facts12.cfg O) facts12.wsdlSkeleton init sched
     s.responded i = none → ∃ j, stuck facts12.wsdlSkeleton s j = false := by
   have hsk : facts12.wsdlSkeleton = expectedSkeleton := by decide
   intro s hi
-  have h : GInv s := by
-    show GInv (run _ facts12.wsdlSkeleton init sched)
-    rw [hsk]; exact ginv_reachable _ sched
+  have h : GInv (facts12.cfg O) s := reach O sched
   rw [hsk]
-  apply not_all_stuck s h i
+  apply not_all_stuck _ s h i
   have hi' := (h.thr i).resp_iff
   have := (h.thr i).pc_le
   unfold State.responded at hi
-  rcases Nat.lt_or_ge (s.loc i).pc 18 with hlt | hge
+  rcases Nat.lt_or_ge (s.loc i).pc 23 with hlt | hge
   · exact hlt
   · exact absurd hi (hi'.mp (by omega))
 
 /-- every step that is not a skip moves its thread strictly forward and leaves the private state
-    of every other thread alone: a requester is answered after at most 18 effective steps -/
-theorem wsdl_progress (sched : List Nat) (i j : Nat) :
-    let s := run facts12.builderResets facts12.wsdlSkeleton init sched
-    let s' := step facts12.builderResets facts12.wsdlSkeleton s i
+    of every other thread alone: a requester is answered after at most 23 effective steps -/
+theorem wsdl_progress (O : Nat → Fail) (sched : List Nat) (i j : Nat) :
+    let s := run (facts12.cfg O) facts12.wsdlSkeleton init sched
+    let s' := step (facts12.cfg O) facts12.wsdlSkeleton s i
     (stuck facts12.wsdlSkeleton s i = false → (s.loc i).pc < (s'.loc i).pc) ∧
-    (j ≠ i → s'.loc j = s.loc j) ∧ (s'.loc i).pc ≤ 18 := by
+    (j ≠ i → s'.loc j = s.loc j) ∧ (s'.loc i).pc ≤ 23 := by
   have hsk : facts12.wsdlSkeleton = expectedSkeleton := by decide
   intro s s'
-  have h : GInv s := by
-    show GInv (run _ facts12.wsdlSkeleton init sched)
-    rw [hsk]; exact ginv_reachable _ sched
-  have hs' : s' = step facts12.builderResets expectedSkeleton s i := by
+  have h : GInv (facts12.cfg O) s := reach O sched
+  have hs' : s' = step (facts12.cfg O) expectedSkeleton s i := by
     show step _ facts12.wsdlSkeleton s i = _
     rw [hsk]
   refine ⟨fun hs => ?_, fun hj => step_other _ _ s i j hj, ?_⟩
   · rw [hsk] at hs
     rw [hs']
-    exact progress_step facts12.builderResets s i hs
+    exact progress_step _ s i h hs
   · rw [hs']
-    exact ((ginv_step facts12.builderResets s i h).thr i).pc_le
+    exact ((ginv_step _ (resets_ok O) s i h).thr i).pc_le
 
 /-- the real scheduler hands the baton over only at shared accesses (macro steps); every such run
-    is a run of the fine-grained semantics, so the theorem above covers it -/
-theorem wsdl_scheduler_runs_are_covered (msched : List Nat) :
-    let s := runMacro facts12.builderResets facts12.wsdlSkeleton init msched
-    s.builds ≤ 1 ∧ ∀ i d, s.responded i = some d → d = some .whole := by
+    is a run of the fine-grained semantics, so the theorems above cover it -/
+theorem wsdl_scheduler_runs_are_covered (O : Nat → Fail) (msched : List Nat) :
+    let s := runMacro (facts12.cfg O) facts12.wsdlSkeleton init msched
+    s.succ ≤ 1 ∧ ∀ i a, s.responded i = some a → a = .doc (some .whole) ∨ a = .error := by
   intro s
-  obtain ⟨l, hl⟩ := runMacro_is_run facts12.builderResets facts12.wsdlSkeleton msched init
-  have h := wsdl_once_and_whole l
-  have hs : s = run facts12.builderResets facts12.wsdlSkeleton init l := hl
+  obtain ⟨l, hl⟩ := runMacro_is_run (facts12.cfg O) facts12.wsdlSkeleton msched init
+  have h := wsdl_once_and_whole O l
+  have hs : s = run (facts12.cfg O) facts12.wsdlSkeleton init l := hl
   rw [hs]
   exact ⟨h.1, h.2.1⟩
 
-example : (runMacro facts12.builderResets facts12.wsdlSkeleton init
-    ([0, 1, 1, 0, 1, 0, 1, 1] ++ List.replicate 9 1 ++ List.replicate 4 0)).responded 0 = some (some .whole) := by
+-- non-vacuity: the first build raises late while the second requester waits; it then builds and is served
+example : (runMacro (facts12.cfg (fun k => if k = 0 then .late else .ok)) facts12.wsdlSkeleton init
+    ([0, 1, 1, 0, 1, 0, 0, 1] ++ List.replicate 9 0 ++ List.replicate 12 1)).responded 1 = some (.doc (some .whole)) := by
+  decide +kernel
+example : (runMacro (facts12.cfg (fun k => if k = 0 then .late else .ok)) facts12.wsdlSkeleton init
+    ([0, 1, 1, 0, 1, 0, 0, 1] ++ List.replicate 9 0 ++ List.replicate 12 1)).responded 0 = some .error := by
   decide +kernel
 
 /-- the handler as pinned (unguarded write-back of what `get_interface_document()` returned) is NOT
     safe: a 2-thread schedule with two builds after which the second requester is served, and
     everybody after it is served from the cache, a truncated document (D20) -/
 theorem pinned_handler_loses_the_document :
-    (run false pinnedSkeleton init raceSchedule).builds = 2 ∧
-    (run false pinnedSkeleton init raceSchedule).responded 0 = some (some .whole) ∧
-    (run false pinnedSkeleton init raceSchedule).responded 1 = some (some .truncated) ∧
-    (run false pinnedSkeleton init raceSchedule).cache = some .truncated :=
+    (run (noFail false) pinnedSkeleton init raceSchedule).builds = 2 ∧
+    (run (noFail false) pinnedSkeleton init raceSchedule).responded 0 = some (.doc (some .whole)) ∧
+    (run (noFail false) pinnedSkeleton init raceSchedule).responded 1 = some (.doc (some .truncated)) ∧
+    (run (noFail false) pinnedSkeleton init raceSchedule).cache = some .truncated :=
   pinned_race
+
+/-- the lock released in an `else:` clause instead of `finally:`: the first build raises, its thread
+    answers 500 and keeps the lock, the second requester is stuck forever -/
+theorem lock_released_only_on_success_deadlocks :
+    let s := run (firstFails .early true) elseReleaseSkeleton init (List.replicate 14 0 ++ List.replicate 30 1)
+    s.responded 0 = some .error ∧ s.lock = some 0 ∧ s.responded 1 = none ∧
+    stuck elseReleaseSkeleton s 1 = true ∧ stuck elseReleaseSkeleton s 0 = true :=
+  else_release_deadlock
+
+/-- a builder that keeps `port_type_dict` / `service_elt_dict` across builds: after a build that
+    raised late, the retry serves and caches a truncated document — with the reset it is complete -/
+theorem builder_must_reset_its_dicts :
+    (let s := run (firstFails .late false) expectedSkeleton init (List.replicate 16 0 ++ List.replicate 22 1)
+     s.responded 0 = some .error ∧ s.responded 1 = some (.doc (some .truncated)) ∧ s.cache = some .truncated) ∧
+    (let s := run (firstFails .late true) expectedSkeleton init (List.replicate 16 0 ++ List.replicate 22 1)
+     s.responded 0 = some .error ∧ s.responded 1 = some (.doc (some .whole)) ∧ s.cache = some .whole ∧
+     s.lock = none ∧ s.builds = 2 ∧ s.succ = 1) :=
+  ⟨dirty_builder_after_failed_build, clean_builder_after_failed_build⟩
 
 /-! ### shared caches and the shared validator -/
 
